@@ -108,4 +108,9 @@ void vf_sb_recover(VSessB *s) { s->Session::recover_seqnums(); }
 bool vf_sb_resend_request(VSessB *s, unsigned seqnum, const Message *m) { return s->Session::handle_resend_request(seqnum, m); }
 bool vf_sb_retrans(Session *s, unsigned seq, const char *d, unsigned n, Session::RetransmissionContext *rctx)
 { Session::SequencePair with(seq, f8String(d, n)); return s->Session::retrans_callback(with, *rctx); }
+void vf_sb_rctx_init(Session::RetransmissionContext *mem, unsigned begin, unsigned end, unsigned interrupted) { new (mem) Session::RetransmissionContext(begin, end, interrupted); }
+void vf_sb_rctx_nomore(Session::RetransmissionContext *r) { r->_no_more_records = true; }
+unsigned vf_sb_get_next_send(Session *s) { return s->get_next_send_seq(); }
+void vf_fld_set_int(void *f, int v) { static_cast<begin_seq_num *>(f)->set(v); }
+int vf_fld_int(const void *f) { return static_cast<const new_seq_num *>(f)->get(); }
 }
